@@ -116,7 +116,7 @@ def r4(ctx, prog, cfgname):
     maxs = [dd["d"] for _, dd in rl.var_init_from(f, lambda j: rl.field_is(f, j, "capacity"))]
     ctx.check(R, len(maxs) == 1, f.where(), "[%s] max_count = page->capacity" % cfgname, key="C17.R4:max")
     if maxs:
-        loops = [l for l in f.all(kind="WhileStmt")]
+        loops = [L["node"] for L in f.loops()]
         anyvar = lambda j: f.nodes[j]["k"] == "DeclRefExpr" and f.nodes[j]["dk"] == "local" and f.nodes[j]["d"] != maxs[0]
         def within(e, pol):
             return isinstance(e, int) and rl.establishes(f, e, pol, "<=", anyvar, rl.is_local(f, maxs[0]))
@@ -203,8 +203,7 @@ def r5(ctx, prog, cfgname):
         v = prog.fn("mi_verify_padding")
         maxal = prog.const("MI_MAX_ALIGN_SIZE")
         mp = [dd for _, dd in rl.local_decl(v, lambda dd: "init" in dd and v.nodes[v.strip(dd["init"])]["k"] == "ConditionalOperator" and any(v.cv(x) == maxal for x in v.walk(dd["init"])))]
-        loops = [l for l in v.all(kind="ForStmt")]
-        ok = len(mp) == 1 and any(rl.cmp_parts(v, v.nodes[l]["cond"]) and rl.var_of(v, rl.cmp_parts(v, v.nodes[l]["cond"])[2]) == mp[0]["d"] for l in loops)
+        ok = len(mp) == 1 and any(L["op"] == "<" and rl.var_of(v, L["bound"]) == mp[0]["d"] and L["first"] is not None and v.cv(L["first"]) == 0 for L in rl.counted_loops(v))
         ctx.check(R, ok, v.where(), "[%s] the scan is bounded by min(delta, MI_MAX_ALIGN_SIZE)" % cfgname, key="C17.R5:scan")
         first = [r for r in v.all(kind="ReturnStmt") if v.cv(v.nodes[r].get("val", -1)) == 0]
         ctx.check(R, bool(first), v.where(), "[%s] an undecodable padding is rejected before the scan" % cfgname, key="C17.R5:reject")
